@@ -39,6 +39,8 @@ inductive ArgTok where
   | lp | rp                       -- tuple brackets
   | fl | fr                       -- frozenset brackets (elements: `obj` only)
   | dict                          -- marker: the following tuple of pairs is an (Ordered)dict
+  | sl                            -- marker: the following triple (start stop step) is a `slice`
+  | ellipsis                      -- the singleton `Ellipsis`
   deriving DecidableEq, Repr, Inhabited
 
 /-- One token of a cons key: argument tokens modulo Python's key equality. -/
@@ -49,6 +51,7 @@ inductive Tok where
   | none
   | ref (i : Id)
   | lp | rp | fl | fr
+  | ellipsis
   deriving DecidableEq, Repr, Inhabited
 
 def normNum (p : Int) (q : Nat) : Tok :=
@@ -72,6 +75,8 @@ def normTok : ArgTok → Option Tok
   | .fl => Option.none
   | .fr => Option.none
   | .dict => Option.none
+  | .sl => Option.none           -- a raw slice never reaches a key (GetsliceMeta unpacks it first)
+  | .ellipsis => some Tok.ellipsis
 
 def insertSorted (i : Id) : List Id → List Id
   | [] => [i]
@@ -321,7 +326,7 @@ def splitTopAux : List ArgTok → (depth : Nat) → (cur : List ArgTok) → List
       | 0 => Option.none
       | 1 => splitTopAux ts 0 [] ((t :: cur).reverse :: acc)
       | d' + 2 => splitTopAux ts (d' + 1) (t :: cur) acc
-    else if t = .dict then splitTopAux ts d (t :: cur) acc
+    else if t = .dict ∨ t = .sl then splitTopAux ts d (t :: cur) acc
     else if d = 0 then splitTopAux ts 0 [] ((t :: cur).reverse :: acc)
     else splitTopAux ts d (t :: cur) acc
 
@@ -356,6 +361,12 @@ def normArgs (mcls : String) (args : List (List ArgTok)) : Option (List (List Ar
   -- (hash(-1) == hash(-2) but -1 != -2: distinct keys).  The harness passes the bound positional
   -- parameters; kwargs are empty after binding.
   | "OpMeta", as => some [[.lp] ++ as.flatten ++ [.rp], [.lp, .rp]]
+  -- GetsliceMeta.hash_args_kwargs: index (made a tuple if it is not one); every slice element is
+  -- replaced by the triple (start, stop, step) *as given* (None stays None); the key is that tuple
+  | "GetsliceMeta", [index] =>
+    match index with
+    | .lp :: rest => (splitTop rest.dropLast).map (fun gs => gs.map unslice)
+    | _ => some [unslice index]
   -- ReshapeMeta.hash_args_kwargs: shape -> tuple(shape), then OpMeta's key
   | "ReshapeMeta", [shape] => some [[.lp] ++ shape ++ [.rp], [.lp, .rp]]
   -- ArrayType.__getitem__: key = (dtype, shape)
@@ -370,6 +381,10 @@ def normArgs (mcls : String) (args : List (List ArgTok)) : Option (List (List Ar
   | "Product", as => some as
   | _, _ => Option.none
 where
+  unslice (g : List ArgTok) : List ArgTok :=
+    match g with
+    | .sl :: rest => rest
+    | other => other
   tensor (data inputs dtype : List ArgTok) : Option (List (List ArgTok)) :=
     let inputs' := if inputs = [.none] then [.lp, .rp]
                    else match inputs with
